@@ -47,7 +47,9 @@ Inductive crash :=
 | RetDepth           (* RET with more or less than exactly the result above the parameters *)
 | BadClear           (* CLEAR_STACK above the written part of the stack *)
 | BadFuncAddr        (* function value built for an address that is not a function entry *)
-| BadInstr.          (* ABad reached *)
+| BadInstr           (* ABad reached *)
+| NoHandler.         (* a fault is raised at (or rethrown to) an address that lies in no block of the
+                        exception table: exception_tab_search returns NULL, the VM asserts / dereferences it *)
 
 Inductive outcome :=
 | Next (s : st)
@@ -82,7 +84,7 @@ Definition fault (s : st) (pops : nat) (ip' len' : nat) : outcome :=
     if (h =? ip') && (length (stk s) - pops <=? len') && (len' <=? length (stk s))
     then Next (setip s h (firstn len' (stk s)))
     else Mismatch
-  | None => Mismatch
+  | None => Crash NoHandler
   end.
 
 (* frame exit shared by RET (at P) and RETHROW (at F): header at indices fr-5 .. fr-1 *)
@@ -143,7 +145,7 @@ Definition step (s : st) (ip' len' : nat) : outcome :=
              | Some h =>
                if (1 <=? a) && (ip' =? h) && (len' =? length l')
                then Next {| ip := h; stk := l'; P := p0; F := f0; cur := c |} else Mismatch
-             | None => Mismatch
+             | None => Crash NoHandler
              end)
     | AClear n =>
       if len <? P s + n then Crash BadClear
